@@ -78,7 +78,35 @@ var passTemplates = []Template{
 	{"passes", "disjunction_with_constant_to_default", `passes: [{disjunction_with_constant_to_default: {}}]`},
 }
 
+// irPassTemplates are the reference-taking passes aimed at the positions part
+// (d) puts its enumerated type at: object p.Root and field p.Root.f.
+var irPassTemplates = []Template{
+	{"passes", "replace_reference@root", `passes: [{replace_reference: {from: p.Root, to: p.S}}]`},
+	{"passes", "replace_reference@toroot", `passes: [{replace_reference: {from: p.S, to: p.Root}}]`},
+	{"passes", "fields_set_default@f", `passes: [{fields_set_default: {defaults: {p.Root.f: 3}}}]`},
+	{"passes", "fields_set_default@f:string", `passes: [{fields_set_default: {defaults: {p.Root.f: s}}}]`},
+	{"passes", "fields_set_required@f", `passes: [{fields_set_required: {fields: [p.Root.f]}}]`},
+	{"passes", "fields_set_not_required@f", `passes: [{fields_set_not_required: {fields: [p.Root.f]}}]`},
+	{"passes", "omit@root", `passes: [{omit: {objects: [p.Root]}}]`},
+	{"passes", "add_fields@root", `passes: [{add_fields: {to: p.Root, fields: [{name: extra, type: ` + tString + `, required: true}]}}]`},
+	{"passes", "name_anonymous_struct@f", `passes: [{name_anonymous_struct: {field: p.Root.f, as: Inner}}]`},
+	{"passes", "add_object@root", `passes: [{add_object: {object: p.Root, as: ` + tString + `}}]`},
+	{"passes", "rename_object@root", `passes: [{rename_object: {from: p.Root, to: Renamed}}]`},
+	{"passes", "retype_object@root", `passes: [{retype_object: {object: p.Root, as: {kind: ref, ref: {referred_pkg: p, referred_type: S}}}}]`},
+	{"passes", "hint_object@root", `passes: [{hint_object: {object: p.Root, hints: {implements_variant: panelcfg}}}]`},
+	{"passes", "retype_field@f", `passes: [{retype_field: {field: p.Root.f, as: {kind: array, array: {value_type: {kind: ref, ref: {referred_pkg: p, referred_type: Root}}}}}}]`},
+	{"passes", "omit_fields@f", `passes: [{omit_fields: {fields: [p.Root.f]}}]`},
+	{"passes", "duplicate_object@root", `passes: [{duplicate_object: {object: p.Root, as: p.Root2, omit_fields: [f]}}]`},
+	{"passes", "constant_to_enum@root", `passes: [{constant_to_enum: {objects: [p.Root]}}]`},
+	{"passes", "constant_to_enum@all", `passes: [{constant_to_enum: {objects: [p.Root, p.K, p.A, p.E, p.S, p.Count]}}]`},
+}
+
 func passTemplateByName(n string) (Template, bool) {
+	for _, t := range irPassTemplates {
+		if t.Name == n {
+			return t, true
+		}
+	}
 	for _, t := range passTemplates {
 		if t.Name == n {
 			return t, true
@@ -300,6 +328,128 @@ type configCase struct {
 	ID    string
 	Files map[string]string
 	Doc   string // the document under test (for the report)
+	// Extra parameters (the CLI's --parameters k=v, handed to codegen.Parameters)
+	Extra map[string]string
+	// TimeoutMS, when set, tightens the watchdog for the first execution
+	TimeoutMS int
+}
+
+// ---- parameters ------------------------------------------------------------------------------------
+
+type paramSet struct {
+	Name  string
+	File  [][2]string // parameters: of the pipeline file, in document order
+	Extra map[string]string
+}
+
+func chainParams(n int) [][2]string {
+	out := [][2]string{{"x", "%p01%"}}
+	for i := 1; i < n; i++ {
+		out = append(out, [2]string{fmt.Sprintf("p%02d", i), fmt.Sprintf("%%p%02d%%/%d", i+1, i)})
+	}
+	return append(out, [2]string{fmt.Sprintf("p%02d", n), "end"})
+}
+
+func doublingParams(n int) [][2]string {
+	out := [][2]string{{"x", "%d01%"}}
+	for i := 1; i < n; i++ {
+		out = append(out, [2]string{fmt.Sprintf("d%02d", i), fmt.Sprintf("%%d%02d%%%%d%02d%%", i+1, i+1)})
+	}
+	return append(out, [2]string{fmt.Sprintf("d%02d", n), "ab"})
+}
+
+// the parameter named x is the one the settings use
+var paramSets = []paramSet{
+	{Name: "plain", File: [][2]string{{"x", "v"}}},
+	{Name: "nested-later-name", File: [][2]string{{"x", "%y%/v"}, {"y", "w"}}},
+	{Name: "nested-earlier-name", File: [][2]string{{"x", "%a%/v"}, {"a", "w"}}},
+	{Name: "self-identity", File: [][2]string{{"x", "%x%"}}},
+	{Name: "self-growing", File: [][2]string{{"x", "%x%/generated"}}},
+	{Name: "self-growing-prefix", File: [][2]string{{"x", "pre/%x%"}}},
+	{Name: "cycle-2", File: [][2]string{{"x", "%y%/generated"}, {"y", "%x%/.."}}},
+	{Name: "cycle-2-reversed-names", File: [][2]string{{"x", "%a%/generated"}, {"a", "%x%/.."}}},
+	{Name: "cycle-3", File: [][2]string{{"x", "%y%/1"}, {"y", "%z%/2"}, {"z", "%x%/3"}}},
+	{Name: "cycle-not-through-x", File: [][2]string{{"x", "%y%"}, {"y", "%z%/a"}, {"z", "%y%/b"}}},
+	{Name: "chain-10", File: chainParams(10)},
+	{Name: "chain-40", File: chainParams(40)},
+	{Name: "doubling-14", File: doublingParams(14)},
+	{Name: "builtin-self", File: [][2]string{{"__config_dir", "%__config_dir%/sub"}, {"x", "%__config_dir%"}}},
+	{Name: "builtin-override", File: [][2]string{{"__current_dir", "cur"}, {"x", "%__current_dir%/%__config_dir%"}}},
+	{Name: "builtin-cycle", File: [][2]string{{"__config_dir", "%x%/.."}, {"x", "%__config_dir%/generated"}}},
+	{Name: "empty-name", File: [][2]string{{"", "e"}, {"x", "a%%b"}}},
+	{Name: "empty-name-self", File: [][2]string{{"", "%%"}, {"x", "a%%b"}}},
+	{Name: "empty-value", File: [][2]string{{"x", ""}}},
+	{Name: "percent", File: [][2]string{{"x", "%"}}},
+	{Name: "percent-wrapped", File: [][2]string{{"x", "%%x%%"}}},
+	{Name: "unknown-placeholder", File: [][2]string{{"x", "%nope%"}}},
+	{Name: "value-is-placeholder-of-l", File: [][2]string{{"x", "%l"}, {"l", "%x%"}}},
+	{Name: "null-value", File: [][2]string{{"x", "~"}}},
+	{Name: "extra-overrides-with-self", File: [][2]string{{"x", "v"}}, Extra: map[string]string{"x": "%x%/generated"}},
+	{Name: "extra-closes-cycle", File: [][2]string{{"x", "%y%/a"}}, Extra: map[string]string{"y": "%x%/b"}},
+	{Name: "extra-plain-override", File: [][2]string{{"x", "v"}}, Extra: map[string]string{"x": "w"}},
+	{Name: "extra-only", File: nil, Extra: map[string]string{"x": "%y%", "y": "%x%/a"}},
+	{Name: "extra-builtin", File: [][2]string{{"x", "%__config_dir%"}}, Extra: map[string]string{"__config_dir": "%__config_dir%/.."}},
+}
+
+// every setting the pipeline interpolates parameters into
+var paramSettings = []struct{ Name, Input, Transformations, Output, Languages string }{
+	{Name: "unused"},
+	{Name: "output.directory", Output: "  directory: 'out/%x%/%l'\n"},
+	{Name: "output.repository_templates", Output: "  repository_templates: '%DIR%/%x%'\n"},
+	{Name: "output.templates_data", Output: "  templates_data: {a: '%x%'}\n"},
+	{Name: "input.path", Input: "  - jsonschema: {path: '%DIR%/p.json%x%', package: p}\n"},
+	{Name: "input.package", Input: "  - jsonschema: {path: '%DIR%/p.json', package: 'p%x%'}\n"},
+	{Name: "input.allowed_objects", Input: "  - jsonschema: {path: '%DIR%/p.json', package: p, allowed_objects: ['Root', '%x%']}\n"},
+	{Name: "input.transformations", Input: "  - jsonschema: {path: '%DIR%/p.json', package: p, transformations: ['%DIR%/%x%.yaml']}\n"},
+	{Name: "input.if", Input: "  - if: '\"%x%\" != \"\"'\n    jsonschema: {path: '%DIR%/p.json', package: p}\n"},
+	{Name: "input.cue.entrypoint", Input: "  - cue: {entrypoint: '%DIR%/%x%'}\n"},
+	{Name: "input.cue.cue_imports", Input: "  - cue: {entrypoint: '%DIR%/veneers', cue_imports: ['%DIR%/%x%:example.com/x']}\n"},
+	{Name: "input.openapi.path", Input: "  - openapi: {path: '%DIR%/%x%', package: p}\n"},
+	{Name: "input.kind_registry", Input: "  - kind_registry: {path: '%DIR%/%x%', version: '%x%'}\n"},
+	{Name: "transformations.schemas", Transformations: "transformations: {schemas: ['%DIR%/%x%.yaml']}\n"},
+	{Name: "transformations.builders", Transformations: "transformations: {builders: ['%DIR%/%x%']}\n"},
+	{Name: "go.package_root", Languages: "    - go: {package_root: 'github.com/%x%/pkg'}\n"},
+	{Name: "go.overrides_templates", Languages: "    - go: {overrides_templates: ['%DIR%/%x%']}\n"},
+	{Name: "go.extra_files_templates", Languages: "    - go: {extra_files_templates: ['%DIR%/%x%']}\n"},
+	{Name: "java.package_path", Languages: "    - java: {package_path: 'com.%x%'}\n"},
+	{Name: "php.namespace_root", Languages: "    - php: {namespace_root: 'NS\\%x%'}\n"},
+	{Name: "python.path_prefix", Languages: "    - python: {path_prefix: '%x%'}\n"},
+	{Name: "typescript.path_prefix", Languages: "    - typescript: {path_prefix: '%x%'}\n"},
+	{Name: "typescript.packages_import_map", Languages: "    - typescript: {packages_import_map: {q: '%x%'}}\n"},
+}
+
+func parameterCases() []configCase {
+	var out []configCase
+	for _, ps := range paramSets {
+		var params strings.Builder
+		if len(ps.File) > 0 {
+			params.WriteString("parameters:\n")
+			for _, kv := range ps.File {
+				k, _ := yaml.Marshal(kv[0])
+				v, _ := yaml.Marshal(kv[1])
+				if kv[1] == "~" {
+					v = []byte("~\n")
+				}
+				params.WriteString("  " + strings.TrimSpace(string(k)) + ": " + strings.TrimSpace(string(v)) + "\n")
+			}
+		}
+		for _, st := range paramSettings {
+			input, langs := st.Input, st.Languages
+			if input == "" {
+				input = plainInput
+			}
+			if langs == "" {
+				langs = "    - go: {}\n"
+			}
+			doc := params.String() + "inputs:\n" + input + st.Transformations + "output:\n  types: true\n  builders: true\n"
+			if !strings.Contains(st.Output, "directory:") {
+				doc += "  directory: 'out/%l'\n"
+			}
+			doc += st.Output + "  languages:\n" + langs
+			out = append(out, configCase{ID: "pipeline/parameters " + ps.Name + " in " + st.Name, Files: configFiles(doc, noPasses, noVeneers), Doc: doc, Extra: ps.Extra, TimeoutMS: 10000})
+		}
+	}
+	return out
 }
 
 func configSpace(thorough bool) (cases []configCase, templates []configCase) {
@@ -384,6 +534,10 @@ func configSpace(thorough bool) (cases []configCase, templates []configCase) {
 		doc := strings.Replace(pipelineYAML(plainInput, "", true, false, false, false, "    - go: {}\n"), "  templates_data:", "  repository_templates: "+rt+"\n  templates_data:", 1)
 		add("pipeline/repository_templates := "+rt, configFiles(doc, noPasses, noVeneers), doc)
 	}
+
+	// parameters: self-references, cycles, chains, built-in names, extra
+	// parameters (--parameters) × every interpolated setting
+	cases = append(cases, parameterCases()...)
 
 	// 2. compiler passes: every template, every scalar position × alphabet; then the `as:` alphabet
 	for _, t := range passTemplates {
